@@ -75,7 +75,16 @@ Level2 == {ArrOf(<<x, NUint(<<9>>)>>, w) : x \in {ArrOf(<<>>, -1), ArrOf(<<NUint
 
 RECURSIVE Nest(_, _)
 Nest(n, indef) == IF n = 0 THEN NUint(<<1>>) ELSE ArrOf(<<Nest(n - 1, indef)>>, IF indef THEN -1 ELSE 0)
-Deep == {Nest(6, TRUE), Nest(6, FALSE)}
+RECURSIVE NestTag(_), NestMap(_), NestMix(_)
+NestTag(n) == IF n = 0 THEN NUint(<<2>>) ELSE NTag(<<n % 20>>, NestTag(n - 1))
+NestMap(n) == IF n = 0 THEN NUint(<<3>>) ELSE MapOf(<<NUint(<<n % 20>>), NestMap(n - 1)>>, 0)
+NestMix(n) == IF n = 0 THEN NSimple(21)
+              ELSE IF n % 3 = 0 THEN ArrOf(<<NUint(<<1>>), NestMix(n - 1)>>, 0)
+              ELSE IF n % 3 = 1 THEN NTag(<<5>>, NestMix(n - 1))
+              ELSE MapOf(<<NUint(<<>>), NestMix(n - 1)>>, -1)
+(* nesting well beyond what C-DNS itself produces (but within what a skip must cope with) *)
+Deep == {Nest(6, TRUE), Nest(6, FALSE), Nest(17, FALSE), Nest(40, FALSE), Nest(33, TRUE), NestTag(18), NestTag(35),
+         NestMap(20), NestMix(25), NestMix(50)}
 
 AllItems == Uints \cup Nints \cup Bools \cup DefStrs \cup IndefStrs \cup Floats \cup Simples
             \cup Level1 \cup Tags0 \cup Level2 \cup Deep
